@@ -187,6 +187,8 @@ package node
 //@   ensures[nonnil] err == nil ==> (forall k int :: 0 <= k && k < len(events) ==> events[k] != nil)
 //@   ensures[empty-on-error] err != nil ==> len(events) == 0
 //@   ensures[miss] old(hg.G_miss(c.hg.Store)) ==> hg.G_miss(c.hg.Store)
+//@   call ParticipantEvents assert[skip] __arg(1) == __ite(__in(id, otherKnown), otherKnown[id], -1)
+//@   call GetEvent assert[listed] exists k int :: 0 <= k && k < len(participantEvents) && __arg(0) == participantEvents[k]
 //@   loop 1 modifies hg.G_miss(c.hg.Store)
 //@   loop 2 modifies hg.G_miss(c.hg.Store)
 //@   loop 1 invariant[miss] old(hg.G_miss(c.hg.Store)) ==> hg.G_miss(c.hg.Store)
